@@ -85,6 +85,21 @@ func c02Observe(in *c02Input, root string) string {
 	}
 	b.WriteString("--- output\n")
 	b.Write(out.Bytes())
+	// the same input through a custom -format template that also lists the rule kinds
+	var out2 bytes.Buffer
+	l2, err := NewLinter(&out2, &LinterOptions{WorkingDir: root, Format: "{{range $e := .}}{{$e.Filepath}}:{{$e.Line}}:{{$e.Column}}:{{$e.Kind}}:{{json $e.Message}}{{end}}kinds={{range $k := allKinds}}{{$k.Name}},{{end}}\n"})
+	if err == nil {
+		if in.Path == "" {
+			_, err = l2.Lint("<stdin>", []byte(in.Src), nil)
+		} else {
+			_, err = l2.LintFile(in.Path, nil)
+		}
+	}
+	b.WriteString("--- format\n")
+	b.Write(out2.Bytes())
+	if err != nil {
+		b.WriteString("ERR " + err.Error() + "\n")
+	}
 	return b.String()
 }
 
@@ -113,7 +128,7 @@ func TestVerifC02(t *testing.T) {
 	r.Bounds["map_order_deviations_breadth_corpus"] = devBreadth
 	r.Bounds["preemptions"] = maxPreempt
 	r.Bounds["history_depth"] = histDepth
-	r.Extra["rule"] = "inputs = collision corpus (same-position / several-candidate diagnostics) + every workflow under testdata/examples|ok|err + project files; per input every execution with <= D non-identity iteration orders over all range-over-map sites (all k! orders for k<=4 keys, identity/reverse/rotations otherwise) must print the identity execution's bytes; multi-file LintFiles runs: all interleavings up to the preemption bound must print identical bytes; histories: each call on a reused Linter equals the call on a fresh one. class = (input, number of distinct outputs); non-trivial = input whose diagnostics include two at one position or that reaches >= 5 map-order sites"
+	r.Extra["rule"] = "inputs = collision corpus (same-position / several-candidate diagnostics) + every workflow under testdata/examples|ok|err + project files; per input every execution with <= D non-identity iteration orders over all range-over-map sites (all k! orders for k<=4 keys, identity/reverse/rotations otherwise) must print the identity execution's bytes (default format with snippets, returned list, and a custom -format template listing all rule kinds); multi-file LintFiles runs: all interleavings up to the preemption bound must print identical bytes; histories: each call on a reused Linter equals the call on a fresh one. class = (input, number of distinct outputs); non-trivial = input whose diagnostics include two at one position or that reaches >= 5 map-order sites"
 	r.Extra["assumptions"] = []string{"map iteration inside third-party packages (yaml.v3, doublestar, cron) is not controlled", "GOMAXPROCS / repeated runs are covered through interleavings and iteration orders under data-race freedom"}
 	sites := vLoadSites()
 	siteName := func(id int) string {
